@@ -133,6 +133,16 @@ def _k_mul(*args):
     return res
 
 
+def _true_positions(cond):
+    """
+    Where cond is True, as a numpy array when cond is a pandas nullable (masked) column:
+    such a column can not be asked for the truth value of a missing entry.
+    """
+    if hasattr(cond, "dtype") and hasattr(cond.dtype, "na_value") and hasattr(cond, "fillna"):
+        return cond.fillna(False).to_numpy(dtype=bool)
+    return cond
+
+
 def _where_expr(*args):
     """
     where(cond, a, b) returns a for positions where cond is True, b otherwise (including cond None).
@@ -141,7 +151,7 @@ def _where_expr(*args):
     cond = args[0]
     a = args[1]
     b = args[2]
-    return numpy.where(cond, a, b)
+    return numpy.where(_true_positions(cond), a, b)
 
 
 # base class for Pandas-like API realization
@@ -293,7 +303,7 @@ class PandasModelBase(
         cond = args[0]
         a = args[1]
         b = args[2]
-        res = numpy.where(cond, a, b)
+        res = numpy.where(_true_positions(cond), a, b)
         bad_posns = self.bad_column_positions(cond)
         if numpy.any(bad_posns):
             # make room for a missing value whatever the type of the branches
